@@ -166,6 +166,14 @@ func genMapFamilies(g genCfg, c ContainerKind, level int, full bool) []*MapScen 
 		add(&MapScen{Rel: RelZeroSD, NKeys: 2, Init: []int{1, 1}, Table: TPlain, Threads: [][]MIn{{on(opDelete, 0), on(opStore, 0)}, {on(b, 1)}}})
 		add(&MapScen{Rel: RelZeroSD, NKeys: 2, Init: []int{0, 1}, Table: TPlain, Threads: [][]MIn{{on(opStore, 0)}, {on(b, 0)}}})
 	}
+	// F5d: tags at the top of the tag range (0x7f.. in MapOf's meta bytes, 0xfffff.. in Map's top hashes), every slot
+	// of the bucket used in turn (k0, k1, k2 occupy slots 0..2; with the chain fillers first they sit in the overflow bucket)
+	for _, b := range []MIn{opLoad, opStore, opDelete, opLoS, opLaD} {
+		add(&MapScen{Rel: RelMaxSD, NKeys: 3, Init: []int{1, 1, 0}, Table: TPlain, Threads: [][]MIn{{on(opStore, 2)}, {on(b, 1)}}})
+		add(&MapScen{Rel: RelMaxSD, NKeys: 3, Init: []int{1, 1, 1}, Table: TPlain, Threads: [][]MIn{{on(opDelete, 0), on(opStore, 0)}, {on(b, 2)}}})
+		add(&MapScen{Rel: RelMaxSD, NKeys: 3, Init: []int{1, 1, 0}, Table: TChain2, FillFirst: true, Threads: [][]MIn{{on(opStore, 2)}, {on(b, 0)}}})
+		add(&MapScen{Rel: RelMaxSD, NKeys: 2, Init: []int{0, 1}, Table: TGrowArmed, Threads: [][]MIn{{on(opStore, 0)}, {on(b, 1)}}, ExpectGrow: true})
+	}
 	// F13: non-initial start: the map has grown and shrunk back to its minimum length before the scenario
 	for _, a := range []MIn{opStore, opDelete, opLoS, opCDel, opClear} {
 		for _, b := range []MIn{opLoad, opStore, opDelete, opLaD, opLoC, opClear} {
